@@ -48,6 +48,7 @@ func (s *State) declSums() {
 	for _, f := range []string{"vlen", "nsc"} {
 		s.c.declare("ssum_"+f, fmt.Sprintf("(declare-fun ssum_%s ((Array Int Str) Int Int) Int)", f))
 	}
+	s.c.declare("scat_nsx", "(declare-fun scat_nsx ((Array Int Str) Int Int) Str)")
 }
 
 func (s *State) freshStr(hint string) Val {
@@ -168,6 +169,11 @@ func registerStrings(e *Engine) {
 					s.assume(or(badWf, badNL, eq(xs.Sl.Len, "0"), and(eq(app("fstl", r.S), app("vlen", first)), eq(app("lstl", r.S), app("vlen", last)))))
 					s.assume(or(badWf, and(eq(app("vlen", r.S), app("ssum_vlen", inner, lo, hi)), eq(app("nsc", r.S), app("ssum_nsc", inner, lo, hi)))))
 					s.assume(and(eq(app("ssum_vlen", inner, lo, lo), "0"), eq(app("ssum_nsc", inner, lo, lo), "0")))
+					if s.c.strOrder {
+						s.declOrder()
+						s.assume(or(badWf, eq(app("nsx", r.S), app("scat_nsx", inner, lo, hi))))
+						s.assume(eq(app("scat_nsx", inner, lo, lo), "emp"))
+					}
 				}
 			}
 		}
